@@ -73,6 +73,7 @@ class Ctx:
         self.notes = []
         self.fact_cache = set()
         self.in_merged = 0
+        self.axioms = []  # formulas valid on every path (input well-formedness, UF axiom instances)
 
     # -- naming --------------------------------------------------------------------------
     def fresh_name(self, base):
@@ -113,7 +114,14 @@ class Ctx:
                     self.bound[lvl][1].append(z)
                     return
         self.fact_cache.add(key)
-        self.pc.append(z)
+        self.axioms.append(z)
+
+    def global_axiom(self, z):
+        key = z.get_id()
+        if key in self.fact_cache:
+            return
+        self.fact_cache.add(key)
+        self.axioms.append(z)
 
     def oblige(self, name, goal, meta=None):
         g = v_truth(goal) if not isinstance(goal, z3.ExprRef) else goal
@@ -124,7 +132,7 @@ class Ctx:
         if self.bound:
             # an obligation raised under bound variables: must hold for all values of them in scope
             raise Unsupported(f"obligation {name} under a bound variable")
-        self.obligations.append(dict(name=name, goal=gz, pc=list(self.pc), meta=meta or {}))
+        self.obligations.append(dict(name=name, goal=gz, pc=list(self.axioms) + list(self.pc), meta=meta or {}))
 
     def oblige_implicit(self, kind, goal_z):
         if not self.implicit_on:
@@ -134,12 +142,15 @@ class Ctx:
         g = z3.simplify(goal_z) if isinstance(goal_z, z3.ExprRef) else z3.BoolVal(bool(goal_z))
         if z3.is_true(g):
             return
-        self.obligations.append(dict(name=f"{self.where[-1]}/safe/{kind}", goal=g, pc=list(self.pc), meta={"implicit": True}))
+        self.obligations.append(dict(name=f"{self.where[-1]}/safe/{kind}", goal=g, pc=list(self.axioms) + list(self.pc),
+                                     meta={"implicit": True}))
 
     # -- branching -----------------------------------------------------------------------
     def feasible(self, extra, timeout_ms=None):
         s = z3.Solver()
         s.set("timeout", timeout_ms or self.feas_timeout_ms)
+        for a in self.axioms:
+            s.add(a)
         for a in self.pc:
             s.add(a)
         for a in extra:
